@@ -290,7 +290,11 @@ func (c *Conn) Write(p []byte) (int, error) {
 	}
 	total := len(p)
 	if debugNet {
-		e.Log(-3, "net.write", "%s %dB %.60q", c, len(p), p)
+		if os.Getenv("DST_DEBUG_NET") == "full" {
+			e.Log(-3, "net.write", "%s %dB %q", c, len(p), p)
+		} else {
+			e.Log(-3, "net.write", "%s %dB %.60q", c, len(p), p)
+		}
 	}
 	// byte-triggered faults on this direction
 	dir := "s2c"
